@@ -64,6 +64,8 @@ pub fn bytes_strategy(max: usize) -> impl Strategy<Value = Vec<u8>> {
         2 => Just(0usize),
         3 => 1usize..=64,
         3 => prop_oneof![Just(4095usize), Just(4096), Just(4097), Just(4044), Just(4043), Just(4045)],
+        // anywhere in the last 70 bytes before a page boundary (header, key and length prefix push the entry across it)
+        2 => (1usize..=4, 0usize..=70).prop_map(|(pages, delta)| pages * 4096 - delta),
         2 => 0usize..=max,
     ];
     (lens, any::<u64>(), 0u8..3).prop_map(move |(len, seed, mode)| {
@@ -339,6 +341,30 @@ where
                 format!("ser:{cname}:independent-parse"),
                 format!("the independent format reader sees {:?} where Buffer::push wrote the entry", other.map(|p| (p.hash, p.sequence, p.len, p.checksum_ok))),
             ));
+        }
+    }
+    // 5. two entries in one flush buffer: the second starts at the next page boundary behind the first (header
+    //    included), and writing it leaves the first one intact
+    let mut buffer = Buffer::new(IoSliceMut::new(2 * aligned + 4096), 2 * aligned + 4096, std::sync::Arc::new(Metrics::noop()));
+    if !buffer.push(k, v, case.hash, c, case.sequence) || !buffer.push(k, v, case.hash ^ 1, c, case.sequence.wrapping_add(1)) {
+        return Err(Failure::new(format!("ser:{cname}:buffer-refused"), format!("Buffer::push refused the second of two entries of {need} payload bytes although the buffer has room for both")));
+    }
+    let (io, infos) = buffer.finish();
+    if infos.len() != 2 || infos[0].offset != 0 || infos[1].offset != aligned || infos[1].len != 36 + need {
+        return Err(Failure::new(
+            format!("ser:{cname}:second-entry-position"),
+            format!("two entries of {} bytes (header included) pushed into one buffer are reported at {:?}; the second must start at {aligned}", 36 + need, infos.iter().map(|i| (i.offset, i.len)).collect::<Vec<_>>()),
+        ));
+    }
+    for (i, e) in infos.iter().enumerate() {
+        match parse_entry(&io[e.offset..e.offset + e.len]) {
+            Some(p) if p.checksum_ok && p.len == e.len && p.sequence == case.sequence.wrapping_add(i as u64) => {}
+            other => {
+                return Err(Failure::new(
+                    format!("ser:{cname}:entry-damaged-by-neighbour"),
+                    format!("after pushing two entries the independent format reader sees {:?} at the position of entry {i}", other.map(|p| (p.hash, p.sequence, p.len, p.checksum_ok))),
+                ));
+            }
         }
     }
     Ok(())
